@@ -2,7 +2,11 @@ module verifharness
 
 go 1.26.0
 
-require github.com/bluenviron/gortsplib/v5 v5.0.0
+require (
+	github.com/bluenviron/gortsplib/v5 v5.0.0
+	github.com/pion/rtcp v1.2.17
+	github.com/pion/rtp v1.10.5
+)
 
 require (
 	github.com/bluenviron/mediacommon/v2 v2.9.3 // indirect
@@ -10,8 +14,6 @@ require (
 	github.com/gorilla/websocket v1.5.3 // indirect
 	github.com/pion/logging v0.2.4 // indirect
 	github.com/pion/randutil v0.1.0 // indirect
-	github.com/pion/rtcp v1.2.17 // indirect
-	github.com/pion/rtp v1.10.5 // indirect
 	github.com/pion/sdp/v3 v3.0.19 // indirect
 	github.com/pion/srtp/v3 v3.0.13 // indirect
 	github.com/pion/transport/v4 v4.1.0 // indirect
